@@ -1,12 +1,30 @@
 """Native replay of an E3 counterexample: python3-vt -m vlib.replay_e3 <case.json>; exit 0 = violation reproduces."""
 import json
+import re
 import sys
 
 from . import common
 
 
+LOCALS = re.compile(r"\b__(this|other|rhs|lhs|state|source|f|o|to_index|by)\b")
+
+
+def unlocal(text):
+    """the expansion spells its own parameters and locals with the reserved `__` prefix (fix 25236d4); how they are spelled is no property of derive-ex, so the
+    needles and patterns of the replay cases are written with the plain names and the observed text is brought to that spelling"""
+    return LOCALS.sub(lambda m: m.group(1), text or "")
+
+
 def observe(case):
     """-> dict of observed facts for the case's item"""
+    obs = _observe(case)
+    for k in ("out", "item0"):
+        if isinstance(obs.get(k), str):
+            obs[k] = unlocal(obs[k])
+    return obs
+
+
+def _observe(case):
     if case.get("kind") == "dump":
         from . import c19
         pl = case["plain"]
